@@ -2,7 +2,7 @@
 from hqrules.core import FailClosed, callee_of, callee_decl, op_local, op_place, place_key, place_fields, norm, op_const
 from hqrules.templates import (Effect, check_arm_effect, pick_scrutinee, effect_blocks, guard_edges, dominated_by_edges,
                                receiver_root_key, must_pass, state_writes, variants_at, call_sites, loop_headers_containing,
-                               local_field_sources, scrutinees)
+                               local_field_sources, scrutinees, construct_sites)
 from .common import *
 from . import reactor_table
 
@@ -281,6 +281,27 @@ def run(ctx):
         from_state = any(any(f == 'state' for f, a_, v_ in place_fields(pl_)) for x in fsrc for d_ in ctm10.defs().get(x, ()) if d_[1] == 'a' for pl_ in __import__('hqrules.core', fromlist=['rv_places']).rv_places(d_[2]['rv']))
         ctx.ob('R05.10', 'create_task_mapping|redirect target = reserved worker', first is not None and bool(tgt_src & fsrc) and not from_state,
                'the worker id stored in redirects derives from the loop target the reservation was made on and not from the worker recorded in the task state', ctm10.loc(bi))
+
+    # ---- R05.11 what the user asked for reaches the server: command line and #HQ directives are merged
+    ctx.rule('R05.11', 'client: OptsWithMatches::overwrite merges the placement-relevant options (nodes, cpus, resource, time_request) from BOTH the command line and the #HQ directives of the script; a field copied from one side only silently drops the other (a dropped time request arrives as min_time = 0 and passes every lifetime gate)')
+    OVW = [p_ for p_ in prog.bodies if p_.endswith('::overwrite') and 'submit::command' in p_ and prog.bodies[p_].kind in ('fn', 'method')]
+    ctx.require(len(OVW) == 1, f'R05.11: overwrite() of the submit options not found ({OVW})')
+    ob_ = prog.body(OVW[0])
+    SJO = 'hyperqueue::client::commands::submit::command::SubmitJobTaskConfOpts'
+    n11 = 0
+    for o_, b_, bi_, s_ in construct_sites(prog, SJO):
+        if b_.path != ob_.path:
+            continue
+        names = s_['rv'][1][3]
+        for fld in ('nodes', 'cpus', 'resource', 'time_request'):
+            if fld not in names:
+                continue
+            op_ = s_['rv'][2][names.index(fld)]
+            l_ = op_local(op_)
+            src = ob_.derived_from(l_) if l_ is not None else set()
+            n11 += 1
+            ctx.ob('R05.11', f'overwrite|{fld} merged from both sources', {1, 2} <= src, f'{fld} of the merged options depends on the command-line options (self) and on the directive options (other)', ob_.loc(bi_, s_))
+    ctx.floor('R05.11', n11, 4, 'placement-relevant fields of the merged submit options')
 
     # ---- R05.5 reactor rows + mapping rows
     n = reactor_table.run_rows(ctx, 'R05.5', 'C05')
